@@ -171,6 +171,8 @@ def run_solver_trace(inp):
     dt = rng.choice([0.1, 0.05, 0.2])
     T = float((n - 1) * dt)
     noisy = rng.random() < 0.5
+    if solver == "MCWF" and rng.random() < 0.5:
+        noisy = "jump"      # a jump fires at every step: the column of a jump step must still be written
     if solver == "MCWF":
         got = pc.guarded(pc.traced_mcwf, (T, dt, samp, noisy), timeout=120)
     else:
@@ -184,6 +186,11 @@ def run_solver_trace(inp):
     probs = [] if r["user_len"] == want_len else [f"Observable.results has {r['user_len']} entries, expected {want_len}"]
     out = []
     if solver == "MCWF":
+        calls = r["returned_calls"]
+        if samp and any(c == 0 for c in calls):
+            probs.append(f"MCWF result columns never written: {[j for j, c in enumerate(calls) if c == 0]} of {len(calls)} (noise={noisy})")
+        if not samp and calls[0] == 0:
+            probs.append(f"MCWF with sampling off returned an unwritten column (noise={noisy})")
         out.append({"req": f"trace mcwf {r['n']} {int(samp)} 1 |", "impl": " ".join(r["tokens"]), "oracle": None,
                     "kind": "mcwf-trace", "sig": f"mcwf:{r['n']}:{int(samp)}:{noisy}", "nontrivial": r["n"] > 2})
     else:
